@@ -248,13 +248,19 @@ func (c *Cluster) Project() State {
 				ns.Fits = append(ns.Fits, id)
 			}
 		}
+		ns.Override2 = "none"
 		for k, v := range n.Annotations {
 			if strings.HasPrefix(k, "resources.extendeddaemonset.datadoghq.com/") {
-				ns.Override = "other"
+				cls := "other"
 				for _, cl := range []string{"r1", "r2", "r3", "bad"} {
 					if v == ResClassJSON(cl) {
-						ns.Override = cl
+						cls = cl
 					}
+				}
+				if strings.HasSuffix(k, "."+SideContainer) {
+					ns.Override2 = cls
+				} else {
+					ns.Override = cls
 				}
 			}
 		}
@@ -382,10 +388,13 @@ func (c *Cluster) Project() State {
 			}
 		}
 		_, s.CLabel = p.Labels[edsv1.ExtendedDaemonSetReplicaSetCanaryLabelKey]
-		s.Res = "tmpl"
+		s.Res, s.Res2 = "tmpl", "tmpl"
 		for _, ct := range p.Spec.Containers {
 			if ct.Name == MainContainer {
 				s.Res = resClassOf(ct.Resources)
+			}
+			if ct.Name == SideContainer {
+				s.Res2 = resClassOf(ct.Resources)
 			}
 		}
 		if n, ok := nodeByName[s.Node]; ok && s.EDS != "" {
